@@ -453,6 +453,13 @@ class Kernel:
                     # injected failure of write() on the tun descriptor (EIO: interface administratively down, ENOBUFS: input
                     # queue full, EAGAIN): nothing reaches the interface
                     e = wf.pop(0)
+                    if isinstance(e, tuple):
+                        # a short count: the device reports fewer bytes than it was given (and passes nothing on).  A tun
+                        # write is one frame; the rest of the buffer is not another frame
+                        n = max(1, min(len(data) - 1, e[1])) if len(data) > 1 else 0
+                        self.emit("tun_write_error", p.name, data=data, errno=0, short=n, cause=p.cause)
+                        self._reply(p, struct.pack("<i", n))
+                        continue
                     self.emit("tun_write_error", p.name, data=data, errno=e, cause=p.cause)
                     self._reply(p, struct.pack("<i", -e))
                     continue
@@ -582,7 +589,7 @@ class Kernel:
             return
         if getattr(p, "tun_write_faults", None) is None:
             p.tun_write_faults = []
-        p.tun_write_faults.extend([int(errno_)] * n)
+        p.tun_write_faults.extend([errno_ if isinstance(errno_, tuple) else int(errno_)] * n)
 
     def offer_tun_error(self, pname, errno_):
         """The next read() on the process's tun descriptor (which select reports readable) fails with errno_."""
